@@ -87,7 +87,7 @@ fn gen(rng: &mut Rng, c: &Conf) -> (Vec<Ev>, Vec<Episode>) {
             opts.push((3, 2));
         }
         if !ups.is_empty() {
-            opts.push((1, 3));
+            opts.push((3, 3));
         }
         if opts.is_empty() {
             break;
@@ -144,10 +144,37 @@ fn gen(rng: &mut Rng, c: &Conf) -> (Vec<Ev>, Vec<Episode>) {
                 }
             }
             _ => {
+                // a single key goes down; half of the time (when something is held) as the motif
+                // "one held key is let go and the single key pressed in the same tick, the other
+                // held keys follow 0-2 ticks later": as many events arrive as left the queue, the
+                // single key's press stays pending, and the releases must still be acted on at once
                 let k = *rng.pick(&ups);
+                let motif = !downs.is_empty() && rng.coin();
+                if motif {
+                    let d = *rng.pick(&downs);
+                    h.push(Ev::R(code(d)));
+                    down[d] = false;
+                    nev += 1;
+                }
                 h.push(Ev::P(code(k)));
                 down[k] = true;
                 nev += 1;
+                if motif {
+                    let g = *rng.pick(&[1u32, 1, 1, 2]);
+                    if g > 0 {
+                        h.push(Ev::T(g));
+                    }
+                    let mut others: Vec<usize> = (0..6).filter(|x| down[*x] && *x != k).collect();
+                    rng.shuffle(&mut others);
+                    for o in others {
+                        h.push(Ev::R(code(o)));
+                        down[o] = false;
+                        nev += 1;
+                    }
+                    // a calm stretch, so that the release bound is judged
+                    h.push(Ev::T(t + 8));
+                    continue;
+                }
             }
         }
         let g = *rng.pick(&step_gaps);
@@ -165,6 +192,47 @@ fn gen(rng: &mut Rng, c: &Conf) -> (Vec<Ev>, Vec<Episode>) {
         }
     }
     (h, eps)
+}
+
+/// Directed history: a chord P is held and has long fired; one of its keys is let go and a key of a
+/// disjoint chord Q pressed in the same tick (Q's press stays pending); 1-2 ticks later the rest of
+/// P is let go. The releases must be acted on without waiting for Q's pending press to be decided.
+fn gen_directed(rng: &mut Rng, c: &Conf) -> Option<(Vec<Ev>, Vec<Episode>)> {
+    let tb = c.tb();
+    let code = |k: usize| osc(key_name(k));
+    let mut pairs = vec![];
+    for p in 0..tb.chords.len() {
+        for q in 0..tb.chords.len() {
+            if p != q && tb.chords[p] & tb.chords[q] == 0 {
+                pairs.push((p, q));
+            }
+        }
+    }
+    if pairs.is_empty() {
+        return None;
+    }
+    let (p, q) = *rng.pick(&pairs);
+    let mut pk = mask_keys(tb.chords[p]);
+    rng.shuffle(&mut pk);
+    let mut qk = mask_keys(tb.chords[q]);
+    rng.shuffle(&mut qk);
+    let mut h = vec![];
+    let mut ep = Episode { ci: p, press_idx: vec![] };
+    for (i, k) in pk.iter().enumerate() {
+        h.push(Ev::P(code(*k)));
+        ep.press_idx.push(i);
+    }
+    h.push(Ev::T(tb.t + 30));
+    h.push(Ev::R(code(pk[0])));
+    h.push(Ev::P(code(qk[0])));
+    h.push(Ev::T(*rng.pick(&[1u32, 1, 2])));
+    for k in pk.iter().skip(1) {
+        h.push(Ev::R(code(*k)));
+    }
+    h.push(Ev::T(tb.t + 40));
+    h.push(Ev::R(code(qk[0])));
+    h.push(Ev::T(tb.t + 8));
+    Some((h, vec![ep]))
 }
 
 #[derive(Default)]
@@ -273,8 +341,14 @@ fn judge(c: &Conf, ins: &[InEv], obs: &[Obs], settled: bool, eps: &[Episode], st
                 e.press && e.at <= ref_t && e.at + t >= ref_t && !parts.iter().any(|(k, a, _)| *k == e.key && *a == e.at) && up + 2 >= stall_end && up <= stall_end + SLACK
             });
             if pending {
+                // The part of this class that is repaired in /repo (17c2bbd: as many events arrive as
+                // left the queue in the pass before) has the deciding release arrive alone in its tick.
+                // What remains on the unchanged tree (findings/C09-v2-release-waits-for-pending-press.md,
+                // "Remainder") has it arrive together with other events; only that is a known class.
+                let alone = ins.iter().filter(|e| e.at == *rule).count() <= 1;
+                let arrival = if alone { "deciding-release-arrived-alone" } else { "deciding-release-arrived-with-other-events" };
                 return Some((
-                    format!("C09:v2:chord-release-delayed-until-pending-press-decided:{SUFFIX}"),
+                    format!("C09:v2:chord-release-delayed-until-pending-press-decided:{arrival}:{SUFFIX}"),
                     format!("{} (fired in tick {at}) was released in tick {up}, more than {SLACK} ticks after {rname} (tick {rule}), when the press of another key that was pending in the chords queue was decided", unit_name(10 + *ci as u8, tb)),
                 ));
             }
@@ -345,7 +419,13 @@ pub(super) fn run_case(ctx: &Ctx, oidx: u64, out: &mut CaseOut) {
     };
     let mut reported: std::collections::BTreeSet<String> = Default::default();
     for hi in 0..HIST_PER_CASE {
-        let (h, eps) = gen(&mut rng, c);
+        let (h, eps) = match if hi == 0 { gen_directed(&mut rng, c) } else { None } {
+            Some(x) => {
+                out.inc("overlap_directed_release_plus_pending_press_histories");
+                x
+            }
+            None => gen(&mut rng, c),
+        };
         let (ins, obs, mut raw, settled) = drive_random(&mut sim, &h, tb, &nm);
         let mut st = Stats::default();
         let mut sig = judge(c, &ins, &obs, settled, &eps, &mut st);
